@@ -56,6 +56,21 @@ def setup(w, name="", tier="thorough", selected=None):
     return core.KaniSession(w, w.ws, pkg="yash-env", tag="env", zflags=["stubbing"])
 
 
+def native_cases(step):
+    """Inputs for the native enumeration replay, in the order of the kani::any() calls of the step: the old pipe content
+    (8 x u8), for a write the request data (12 x u8), then the reader and writer counts (usize each) - all nine count
+    combinations over fixed, pairwise different byte values."""
+    cases = []
+    for readers in (0, 1, 2):
+        for writers in (0, 1, 2):
+            c = [(0x41 + i, 1) for i in range(8)]
+            if step == "write":
+                c += [(0x61 + i, 1) for i in range(12)]
+            c += [(readers, 8), (writers, 8)]
+            cases.append(c)
+    return cases
+
+
 def harnesses(tier):
     hs = []
     for nm, step, l, n in arms(tier):
@@ -63,7 +78,8 @@ def harnesses(tier):
         hs.append(Harness(nm, "pipe holding %d of %d bytes, %s request of %d bytes (PIPE_BUF scaled to %d); byte values, reader and "
                           "writer counts symbolic" % (l, PIPE_SIZE, step, n, PIPE_BUF), [fn],
                           "POSIX pipe rules for one %s: completeness, order, atomicity up to PIPE_BUF, capacity, blocking, wake-ups" % step,
-                          timeout=900, mem_gb=12, mod=M, cover_group="c14_" + step.rstrip("w")))
+                          timeout=900, mem_gb=12, mod=M, cover_group="c14_" + step.rstrip("w"),
+                          native_cases=native_cases(step.rstrip("w"))))
     return hs
 
 
